@@ -28,6 +28,21 @@ try:
     for i in ids:
         rc, out = sh(['./check', i], cwd='/verif', env=dict(os.environ, AY_REPO=wt), timeout=3600)
         lines = [l for l in out.splitlines() if l.startswith(('VIOLATION', 'KNOWN-FINDING', i, 'INFRA'))]
+        if os.environ.get('SAVE_CORPUS') and i == pid:
+            # keep the shrunk failing input as a regression case of the property's own check (harness/corpus/<id>/<change>.json)
+            seed = os.environ.get('VERIF_SEED', '0') or '0'
+            rp = os.path.join(wt, '.verif-evidence', 'replays', f'{i}-{seed}-violation.json')
+            if os.path.exists(rp):
+                try:
+                    payload = json.load(open(rp))
+                    if 'case' in payload:
+                        cd = os.path.join('/verif/harness/corpus', i)
+                        os.makedirs(cd, exist_ok=True)
+                        json.dump({'origin': os.path.basename(d), 'what': str(payload.get('what'))[:300], 'case': payload['case']},
+                                  open(os.path.join(cd, os.path.basename(d) + '.json'), 'w'), indent=1)
+                        res.setdefault('saved_corpus', []).append(i)
+                except Exception as e:  # noqa
+                    res.setdefault('saved_corpus_error', str(e))
         res['checks'][i] = {'exit': rc, 'lines': [l[:200] for l in lines][-4:]}
 finally:
     subprocess.run(['git', '-C', '/repo', 'worktree', 'remove', '--force', wt])
